@@ -11,6 +11,7 @@ CONSTANTS
   MaxUDP = 48
   FrameMode = "checked"
   PtrMode = "bounded"
+  UnpackMode = "assign"
   DecoderMode = "inplace"
   NonceMode = "fresh"
   ReqLens <- Upto17
